@@ -161,6 +161,8 @@ def install(w):
         if isinstance(v, (VObj, VList, VDict)):
             t = z3.Int(f"id!{v.oid}")
             return VInt(t)
+        if isinstance(v, VDyn):
+            return VInt(z3.Function("id_of", sym.ValS, sym.I)(v.t))
         return it.fresh_int("id")
     B["bi:id"] = b_id
 
